@@ -2456,6 +2456,12 @@ func (r *stack) pop() (slice any, ok bool) {
 	r.lock()
 	defer r.unlock()
 
+	// the emptiness check of the caller was made
+	// without the lock; it must hold under it.
+	if r.ulen() == 0 {
+		return
+	}
+
 	var idx int
 
 	if r.isFIFO() {
